@@ -92,9 +92,31 @@ def wrapped_backend_fn(m, ty_s, trait, name):
             if w['k'] != 'adt' or w.get('adt_kind') == 'union' or len(w.get('variants', [])) != 1:
                 continue
             nz = [fd for fd in w['variants'][0]['f'] if m.ty(fd['t']).get('size') != 0]
-            if len(nz) == 1 and m.ty(nz[0]['t'])['k'] == 'ref' and m.ty(m.ty(nz[0]['t'])['t'])['s'] == ty_s:
-                return f
+            if len(nz) == 1 and m.ty(nz[0]['t'])['k'] == 'ref':
+                inner_s = m.ty(m.ty(nz[0]['t'])['t'])['s']
+                if inner_s == ty_s or inner_s in sole_field_types(m, ty_s):
+                    return f
     return None
+
+
+def sole_field_types(m, ty_s):
+    """types T such that the cipher type is (a chain of single-field structs around) one value of type T: a backend wrapper
+    around `&T` then necessarily borrows that one field, for encryption and for decryption alike"""
+    out = []
+    cur = None
+    for i, d in enumerate(m.types):
+        if d.get('s') == ty_s:
+            cur = d
+            break
+    for _ in range(4):
+        if cur is None or cur.get('k') != 'adt' or cur.get('adt_kind') == 'union' or len(cur.get('variants', [])) != 1:
+            break
+        nz = [fd for fd in cur['variants'][0]['f'] if m.ty(fd['t']).get('size') != 0]
+        if len(nz) != 1:
+            break
+        cur = m.ty(nz[0]['t'])
+        out.append(cur['s'])
+    return out
 
 
 def roundtrip(m, ty_s, self_val_fn, first='enc'):
